@@ -418,7 +418,7 @@ func checkC18(c *Ctx) *core.Result {
 	sconvRule(p, r, p.ReachFrom["IsSQLi"])
 	// a positive fixture for the zero-instance S-conv rule is part of the selftest battery; here: the rule must have looked at the q-string needle
 	if strCore := a.Fn("sql.stringCore"); strCore != nil {
-		checkContentStartUniform(p, r, strCore)
+		checkContentStartUniform(p, a, r, strCore)
 	}
 	r.Extra["roots"] = sr.describe()
 	r.Explanation = e3Explain + " C18 adds at the return of every lexer: O-hit (every search hit of the step — IndexByte/Index on the input — satisfies hit + len(needle) ≤ returned cursor), and for string tokens O-str (the literal ends exactly at a found terminator and the cursor becomes that position + len(needle), with strClose ≠ 0; or no terminator was found, the literal runs to end of input, the cursor is the length and strClose = 0). S-self: no strings.Index of a string for a substring of itself (finds the first copy, not the one at the known offset). S-conv: no string(byte) of an input-derived byte. K6: the string lexer depends on (pos, offset) only through pos+offset, so the real and the simulated opening quote are treated alike. NOT decided: backslash parity and the doubled-delimiter rule themselves (which hits are rejected)."
